@@ -7,6 +7,7 @@
 package emusim
 
 import (
+	"mltwist/internal/consoleui/verifsim/uisim"
 	"encoding/hex"
 	"encoding/json"
 	"fmt"
@@ -58,6 +59,9 @@ type Trace struct {
 	KnownReg []int             `json:"known_reg,omitempty"`
 	KnownMem []Range           `json:"known_mem,omitempty"`
 	Ops      []Op              `json:"ops"`
+	// Tool: the run is a tool-tier scenario on the real binary (uisim/tool.go)
+	// instead of an in-process emulation; nothing else of the trace is used.
+	Tool *uisim.ToolScenario `json:"tool,omitempty"`
 }
 
 func (t *Trace) Len() int { return len(t.Ops) }
@@ -229,6 +233,11 @@ func (e *Engine) Generate(r *core.Rand, prop string, tier string) core.Trace {
 			}
 		}
 		t.Ops = append(t.Ops, Op{K: "step"})
+	}
+	// drawn last, so that every other choice of the run is what it was before
+	// the tool tier existed: one run in 250 drives the real binary
+	if r.Chance(1, 250) {
+		return &Trace{Seed: t.Seed, Tool: uisim.GenToolScenario(r)}
 	}
 	return t
 }
@@ -427,6 +436,20 @@ func (r *run) Memory(key expr.Key, addr model.Addr, w expr.Width) expr.Const {
 
 func (e *Engine) Execute(tr core.Trace, ctx *core.Ctx) {
 	t := tr.(*Trace)
+	if t.Tool != nil {
+		vs, harness := uisim.RunToolScenario(t.Tool)
+		if harness != "" {
+			panic("HARNESS: tool tier: " + harness)
+		}
+		ctx.Probe("tool_run")
+		ctx.Fault("real_binary_reemulation")
+		ctx.MarkNonTrivial()
+		ctx.State(fmt.Sprintf("tool|k=%d|%v", t.Tool.K, t.Tool.InImage))
+		for _, v := range vs {
+			ctx.Fail(v.Prop, "tool", v.Sig, 0, "%s", v.Detail)
+		}
+		return
+	}
 	if len(t.Prog) == 0 {
 		return
 	}
